@@ -25,7 +25,7 @@
 (* and the scripted writer (builder answer, open result, failing write).   *)
 (* Decode rule: No-Code all k source symbols; Reed-Solomon any k distinct  *)
 (* symbols; RaptorQ / Raptor all k source symbols (the model is only       *)
-(* compared with runs where source symbols arrive before repair symbols).  *)
+(* oracle of the call decides when repair symbols are needed).             *)
 (* Outputs: the callback sequence of every call and the projection of the  *)
 (* containers, compared with the recorded traces by Trace_Receiver.        *)
 (***************************************************************************)
@@ -56,7 +56,8 @@ InitRx(rcfg, wscript) ==
     fcur |-> <<>>,             \* current instances, newest first (ids)
     foff |-> <<>>,             \* id -> estimated offset receiver clock - sender clock (seconds)
     fexp |-> <<>>,             \* id -> expired flag (state Expired is sticky)
-    open |-> FALSE, closing |-> FALSE, nextw |-> 1, cb |-> <<>> ]
+    open |-> FALSE, closing |-> FALSE, nextw |-> 1, cb |-> <<>>,
+    fd |-> TRUE ]              \* oracle of the current call for the decoding of fountain codes (see Decodable)
 
 \* effective scheme parameters of object o (or of the FDT with o = 0)
 Sch(S, o) == IF o = 0 THEN S.cfg.scheme ELSE SOb(S, o).scheme
@@ -70,17 +71,23 @@ MaxAlloc(r, o) == IF o = 0 THEN 1048576 ELSE IF r.rcfg.max_cache < 0 THEN 104857
 Emit(r, c) == [r EXCEPT !.cb = Append(@, c)]
 
 \* decode rule
-Decodable(sc, k, par, syms) == IF IsRSch(sc) THEN Cardinality(syms \cap 0..(k + par - 1)) >= k ELSE 0..(k - 1) \subseteq syms
+\* No-Code: all k source symbols.  Reed-Solomon: any k distinct symbols.  Raptor / RaptorQ: all source symbols decode for
+\* sure, fewer than k symbols never do; in between (k or more symbols, some of them repair symbols) the linear system of
+\* the code is solvable or not: the oracle fd of the call decides (Trace_Receiver tries both values)
+Decodable(sc, k, par, syms, fd) ==
+  IF IsRSch(sc) THEN Cardinality(syms \cap 0..(k + par - 1)) >= k
+  ELSE IF 0..(k - 1) \subseteq syms THEN TRUE
+  ELSE IF sc \in {1, 6} /\ Cardinality(syms) >= k THEN fd
+  ELSE FALSE
 
 -----------------------------------------------------------------------------
 (* ObjectReceiver; operators take and return <<r, ob>> where ob is the object under work *)
 
 Complete(r, ob) ==
-  << IF ob.w # 0 /\ ob.ws \in {"idle", "opened"} THEN Emit(r, [k |-> "complete", w |-> ob.w]) ELSE
-     IF ob.w # 0 THEN Emit(r, [k |-> "complete", w |-> ob.w]) ELSE r,
+  << IF ob.w > 0 THEN Emit(r, [k |-> "complete", w |-> ob.w]) ELSE r,      \* w = -2: the FDT's internal writer
      [ob EXCEPT !.st = "C", !.ws = IF ob.w # 0 THEN "closed" ELSE @, !.blocks = <<>>, !.nslots = 0, !.cache = <<>>, !.csize = 0] >>
 Error(r, ob, interrupted) ==
-  << IF ob.w # 0 THEN Emit(r, [k |-> IF interrupted THEN "interrupted" ELSE "error", w |-> ob.w]) ELSE r,
+  << IF ob.w > 0 THEN Emit(r, [k |-> IF interrupted THEN "interrupted" ELSE "error", w |-> ob.w]) ELSE r,
      [ob EXCEPT !.st = IF interrupted THEN "I" ELSE "E", !.ws = IF ob.w # 0 THEN "error" ELSE @,
                 !.blocks = <<>>, !.nslots = 0, !.cache = <<>>, !.csize = 0] >>
 
@@ -157,7 +164,7 @@ ToBlock(S, r, o, ob, p) ==
   IN  IF tooBig \/ badCodec THEN <<r, [ob1 EXCEPT !.st = "E"], FALSE>>
       ELSE
       LET syms == blk.syms \cup {p.esi}
-          done == Decodable(Sch(S, o), k, PPar(S, o), syms)
+          done == Decodable(Sch(S, o), k, PPar(S, o), syms, r.fd)
           ob2 == [ob1 EXCEPT !.blocks[p.sbn] = [syms |-> syms, done |-> done, init |-> TRUE, size |-> blen],
                              !.alloc = IF blk.init THEN @ ELSE @ + 1, !.abytes = IF blk.init THEN @ ELSE @ + blen]
       IN  IF done THEN Flush(S, r, o, ob2, p.sbn, ob2.nslots + 2) ELSE <<r, ob2, TRUE>>
@@ -231,10 +238,10 @@ CheckState(S, r, o) ==
        ELSE IF ob.st = "C" THEN
             IF ob.nocache THEN rm ELSE [rm EXCEPT !.completed = [x \in DOMAIN @ \cup {o} |-> IF x = o THEN ob.hint ELSE @[x]]]
        ELSE GcErr(S, [r EXCEPT !.errors = @ \cup {o}]) \* the object itself is removed below
-Remove(r, o) == [r EXCEPT !.objects = [x \in DOMAIN @ \ {o} |-> @[x]]]
+RemoveObj(r, o) == [r EXCEPT !.objects = [x \in DOMAIN @ \ {o} |-> @[x]]]
 CheckState2(S, r, o) ==
   LET r1 == CheckState(S, r, o) IN
-  IF o \in DOMAIN r1.objects /\ r1.objects[o].st # "R" THEN Remove(r1, o) ELSE r1
+  IF o \in DOMAIN r1.objects /\ r1.objects[o].st # "R" THEN RemoveObj(r1, o) ELSE r1
 
 \* estimated sender time and expiry of an instance
 ServerTime(r, id, now) == IF id \in DOMAIN r.foff THEN now - r.foff[id] ELSE now
@@ -295,7 +302,7 @@ PushFdt(S, r, i, now) ==
   LET fr0 == IF id \in DOMAIN r.fr THEN r.fr[id] ELSE [st |-> "R", ob |-> NewObj] IN
   IF fr0.st # "R" THEN [r EXCEPT !.fr = [x \in DOMAIN @ \cup {id} |-> IF x = id THEN fr0 ELSE @[x]]]
   ELSE
-  LET r1 == [r EXCEPT !.foff = IF p.sct THEN [x \in DOMAIN @ \cup {id} |-> IF x = id THEN now - p.sctsec ELSE @[x]] ELSE @,
+  LET r1 == [r EXCEPT !.foff = IF p.sct THEN [x \in DOMAIN @ \cup {id} |-> IF x = id THEN now - p.scts ELSE @[x]] ELSE @,
                       !.fexp = [x \in DOMAIN @ \cup {id} |-> IF x = id /\ x \notin DOMAIN @ THEN FALSE ELSE IF x = id THEN @[x] ELSE @[x]]]
       a == ObjPush(S, r1, 0, fr0.ob, i, now)
       ob == a[2]
@@ -309,7 +316,8 @@ PushFdt(S, r, i, now) ==
       LET r4 == Emit([r3 EXCEPT !.fr = [x \in DOMAIN @ \ {id} |-> @[x]], !.fcur = <<id>> \o @], [k |-> "fdtrx", id |-> id])
           files == SFdt(S, id).files
           r5 == AttachAll(S, r4, SortSeq(SetToSeq(DOMAIN r4.objects), LAMBDA x, y : x < y), id, now)
-          r6 == [r5 EXCEPT !.completed = [x \in DOMAIN @ \cap SeqSet(files) |-> @[x]]]
+          \* gc_object_completed: an instance without any File element does not collect anything
+          r6 == IF files = <<>> THEN r5 ELSE [r5 EXCEPT !.completed = [x \in DOMAIN @ \cap SeqSet(files) |-> @[x]]]
           r7 == UpdCache(S, r6, files, id)
       IN  IF Len(r7.fcur) > 10 THEN [r7 EXCEPT !.fcur = SubSeq(@, 1, 10)] ELSE r7
 
@@ -318,13 +326,13 @@ RECURSIVE DropObjs(_, _)
 DropObjs(r, os) ==
   IF os = <<>> THEN [r EXCEPT !.objects = <<>>]
   ELSE LET ob == r.objects[Head(os)] IN
-       DropObjs(IF ob.w # 0 /\ ob.ws \in {"idle", "opened"} THEN Emit(r, [k |-> "error", w |-> ob.w]) ELSE r, Tail(os))
+       DropObjs(IF ob.w > 0 /\ ob.ws \in {"idle", "opened"} THEN Emit(r, [k |-> "error", w |-> ob.w]) ELSE r, Tail(os))
 DropAll(r) == DropObjs(r, SetToSeq(DOMAIN r.objects))
 
 \* MultiReceiver::push for the session's endpoint
-Push(S, r0, i, now) ==
+Push(S, r0, i, now, fd) ==
   LET p == S.pkts[i]
-      r == [r0 EXCEPT !.cb = <<>>] IN
+      r == [r0 EXCEPT !.cb = <<>>, !.fd = fd] IN
   IF p.A THEN
      IF ~r.open THEN r
      ELSE LET r1 == IF p.k = "fdt" /\ p.id >= 0 THEN PushFdt(S, r, i, now) ELSE r
